@@ -230,6 +230,30 @@ int main() {
         long k = atol(w[1].c_str());
         if (!vars.count(k)) { std::cout << "EXC unknown_handle\n"; continue; }
         double g = vars[k]->get_gradient(); std::cout << "g " << num(g) << "\n";
+      } else if (w[0] == "getr" && w.size() == 4) {
+        // range forms of Stack::get_gradients as Array::get_gradient calls them: n elements from the index of handle k, element
+        // separation ss (ss == 1: the contiguous overload); end_plus_one is one past the LAST element touched
+        long k = atol(w[1].c_str()); long n = atol(w[2].c_str()), ss = atol(w[3].c_str());
+        if (!vars.count(k)) { std::cout << "EXC unknown_handle\n"; continue; }
+        if (n < 0 || ss < 1) { std::cout << "bad-op\n"; continue; }
+        uIndex start = vars[k]->gradient_index();
+        uIndex endp1 = n == 0 ? start : start + (n - 1) * ss + 1;
+        std::vector<double> buf(n + 2, -777.0);
+        if (ss == 1) st->get_gradients(start, endp1, buf.data() + 1);
+        else st->get_gradients(start, endp1, buf.data() + 1, (Index)ss, (Index)1);
+        if (buf[0] != -777.0 || buf[n + 1] != -777.0) { std::cout << "GUARD\n"; continue; }
+        std::cout << "G";
+        for (long i = 0; i < n; ++i) std::cout << " " << num(buf[1 + i]);
+        std::cout << "\n";
+      } else if (w[0] == "setr" && w.size() >= 2) {
+        long k = atol(w[1].c_str());
+        if (!vars.count(k)) { std::cout << "EXC unknown_handle\n"; continue; }
+        std::vector<double> buf;
+        for (size_t i = 2; i < w.size(); ++i) buf.push_back(atof(w[i].c_str()));
+        uIndex start = vars[k]->gradient_index();
+        buf.push_back(0.0);
+        st->set_gradients(start, start + (uIndex)(buf.size() - 1), buf.data());
+        std::cout << "ok\n";
       } else if (w[0] == "fwd") { st->forward(); std::cout << "ok\n"; }
       else if (w[0] == "rev") { st->reverse(); std::cout << "ok\n"; }
       else if (w[0] == "jac" && w.size() == 6 && w[2] == "ptr") {
